@@ -26,4 +26,19 @@ PROPS = {
         "theorems": ["offset_exact_or_overflow", "durationSince_exact_or_overflow", "ext_eq_by_value"],
         "assumptions": ["extension values are read from the Debug form of the private structs (Decimal{value}, IPAddr{addr,prefix}, DateTime{epoch}, Duration{ms})"],
     },
+    "C13": {
+        "streams": [("c13", 1200, 60000)],
+        "definitional": False,
+        "rule": "1-6 policies from c01's generator (scope forms incl. is/==/in, template links, forced sat/unsat/error and random typed conditions) x "
+                "requests with every subset of {principal, resource, context} unknown (typed/untyped entries, missing context, context attributes that are "
+                "Unknown nodes, unknown(\"x\") calls, unknowns nested in sets/records/constructor calls) x entity attributes/tags with unknowns x complete and "
+                ".partial() stores; per case 3 (quick) / 8 (thorough) substitutions of values of the declared kinds; each substitution: reauthorize (store with "
+                "unknown attributes kept, and substituted) vs fresh concrete is_authorized vs model; non-trivial = at least one residual policy; distinct by canonical request+policies",
+        "theorems": ["table_sound", "pinterp_sound_partial", "reauthorize_eq_fresh"],
+        "assumptions": ["error classes are not compared between residual evaluation and concrete evaluation (the property says 'errors')",
+                        "unknowns created by a partial store for missing entities are substituted by the entity itself; the completed store is the full store",
+                        "an unknown nested inside an entity attribute value is only discovered by the reauthorize round that first dereferences the entity "
+                        "(documented as 'undiscovered unknowns' in Expr::substitute); a second round with the same substitution is allowed before comparing",
+                        "policies calling unknown(\"x\") themselves are only diffed against the model (no concrete counterpart exists)"],
+    },
 }
